@@ -847,4 +847,105 @@ theorem inv_of_run {k : Nat} (hk : 0 < k) {es : List Ev} {s : St} (h : (sys k).r
   Sys.inv_of_run (sys k) (fun s => Inv1 s ∧ Inv2 s ∧ Inv3 s) ⟨inv1_init k, inv2_init k, inv3_init k hk⟩
     (fun _ _ _ hi hs => ⟨inv1_step hi.1 hs, inv2_step hi.1 hi.2.1 hs, inv3_step hi.1 hi.2.1 hi.2.2 hs⟩) h
 
+/-- how a step can change a validated protection -/
+theorem prot_step {s s' : St} {e : Ev} (hs : step s e = some s') (u j : Nat) :
+    s'.prot u j = s.prot u j ∨
+    (∃ v, e = .wrHp u u j v ∧ s'.prot u j = 0) ∨
+    (∃ g, e = .ldG u g (s'.prot u j) ∧ s.g g = s'.prot u j ∧ (∃ g', s.pc u = .acqFenced g' j (s'.prot u j))) := by
+  cases e <;> simp only [step] at hs
+  case wrHp t r i v =>
+    unfold stepWrHp at hs
+    step_cases hs
+    all_goals (
+      rename_i hv
+      obtain ⟨rfl, rfl, rfl⟩ := hv
+      show upd2 s.prot r i 0 u j = _ ∨ _
+      rw [upd2_apply]
+      split
+      · next h => obtain ⟨rfl, rfl⟩ := h; right; left; exact ⟨_, rfl, by simp [upd2_apply]⟩
+      · left; rfl)
+  case ldG t g v =>
+    unfold stepLdG at hs
+    step_cases hs
+    · left; rfl
+    · left; rfl
+    · next g' sl p hpc hv hvp =>
+      obtain ⟨rfl, rfl⟩ := hv
+      show upd2 s.prot t sl p u j = _ ∨ _
+      rw [upd2_apply]
+      split
+      · next h =>
+        obtain ⟨rfl, rfl⟩ := h; right; right
+        refine ⟨g, ?_, ?_, g, ?_⟩ <;> simp [upd2_apply, hvp, hpc]
+      · left; rfl
+    · left; rfl
+  all_goals (
+    left
+    first
+    | (unfold stepCallJoin at hs; step_cases hs; all_goals rfl)
+    | (unfold stepRetJoin at hs; step_cases hs; all_goals rfl)
+    | (unfold stepLdHead at hs; step_cases hs; all_goals rfl)
+    | (unfold stepCasHead at hs; step_cases hs; all_goals rfl)
+    | (unfold stepWrNext at hs; step_cases hs; all_goals rfl)
+    | (unfold stepRdNext at hs; step_cases hs; all_goals rfl)
+    | (unfold stepStThr at hs; step_cases hs; all_goals rfl)
+    | (unfold stepLdThr at hs; step_cases hs; all_goals rfl)
+    | (unfold stepFaddThr at hs; step_cases hs; all_goals rfl)
+    | (unfold stepRdRc at hs; step_cases hs; all_goals rfl)
+    | (unfold stepWrRc at hs; step_cases hs; all_goals rfl)
+    | (unfold stepRdHp at hs; step_cases hs; all_goals rfl)
+    | (unfold stepFence at hs; step_cases hs; all_goals rfl)
+    | (unfold stepXchgG at hs; step_cases hs; all_goals rfl)
+    | (unfold stepCallAcq at hs; step_cases hs; all_goals rfl)
+    | (unfold stepValidated at hs; step_cases hs; all_goals rfl)
+    | (unfold stepUse at hs; step_cases hs; all_goals rfl)
+    | (unfold stepRetAcq at hs; step_cases hs; all_goals rfl)
+    | (unfold stepCallRel at hs; step_cases hs; all_goals rfl)
+    | (unfold stepRetRel at hs; step_cases hs; all_goals rfl)
+    | (unfold stepCallX at hs; step_cases hs; all_goals rfl)
+    | (unfold stepAlloc at hs; step_cases hs; all_goals rfl)
+    | (unfold stepCallRetire at hs; step_cases hs; all_goals rfl)
+    | (unfold stepRetRetire at hs; step_cases hs; all_goals rfl)
+    | (unfold stepRcNote at hs; step_cases hs; all_goals rfl)
+    | (unfold stepRetX at hs; step_cases hs; all_goals rfl)
+    | (unfold stepCallScan at hs; step_cases hs; all_goals rfl)
+    | (unfold stepRetScan at hs; step_cases hs; all_goals rfl)
+    | (unfold stepReclaim at hs; step_cases hs; all_goals rfl))
+
+/-- every step of thread `e.tid` satisfies `Frame3`; in particular the list reachable from a record
+    pointer never changes (`next` of a pushed record is immutable) and the list only grows -/
+theorem frame3_step {s s' : St} {e : Ev} (h1 : Inv1 s) (hs : step s e = some s') : Frame3 s s' e.tid := by
+  cases e with
+  | casHead t f e d ok => exact frame3_CasHead h1 hs
+  | callJoin t => exact frame3_CallJoin hs
+  | retJoin t => exact frame3_RetJoin hs
+  | ldHead t v => exact frame3_LdHead hs
+  | wrNext t r v => exact frame3_WrNext hs
+  | rdNext t r v => exact frame3_RdNext hs
+  | stThr t r v => exact frame3_StThr hs
+  | ldThr t r v => exact frame3_LdThr hs
+  | faddThr t r old op => exact frame3_FaddThr hs
+  | rdRc t r v => exact frame3_RdRc hs
+  | wrRc t r v => exact frame3_WrRc hs
+  | rdHp t r i v => exact frame3_RdHp hs
+  | wrHp t r i v => exact frame3_WrHp hs
+  | fence t => exact frame3_Fence hs
+  | ldG t g v => exact frame3_LdG hs
+  | xchgG t g old new => exact frame3_XchgG hs
+  | callAcq t g sl => exact frame3_CallAcq hs
+  | validated t sl n => exact frame3_Validated hs
+  | use t sl n => exact frame3_Use hs
+  | retAcq t n => exact frame3_RetAcq hs
+  | callRel t sl => exact frame3_CallRel hs
+  | retRel t => exact frame3_RetRel hs
+  | callX t g => exact frame3_CallX hs
+  | alloc t n => exact frame3_Alloc hs
+  | callRetire t n => exact frame3_CallRetire hs
+  | retRetire t => exact frame3_RetRetire hs
+  | rcNote t r v => exact frame3_RcNote hs
+  | retX t => exact frame3_RetX hs
+  | callScan t => exact frame3_CallScan hs
+  | retScan t => exact frame3_RetScan hs
+  | reclaim t n => exact frame3_Reclaim hs
+
 end LibfiberVerif.Hp
